@@ -40,10 +40,16 @@ func (b *Buffer) Put(key, value []byte) {
 	defer b.mu.Unlock()
 
 	// The buffer outlives the call: capture key and value now so that the
-	// caller may reuse its slices without changing what gets committed
+	// caller may reuse its slices without changing what gets committed.
+	// A put always carries a value: a nil value is an empty value, never a
+	// deletion (readers of the buffer take a nil Value for a deletion marker),
+	// so the stored copy is never nil
+	valueCopy := make([]byte, len(value))
+	copy(valueCopy, value)
+
 	b.operations[string(key)] = &Operation{
 		Key:      cloneBytes(key),
-		Value:    cloneBytes(value),
+		Value:    valueCopy,
 		IsDelete: false,
 	}
 }
